@@ -16,6 +16,7 @@ package xsync
 
 //@ func (*MutexWithSpinlock).Unlock
 //@   props C02 C13
+//@   binds m
 //@   ensures [releases|C02] m.lock == 0
 
 //@ func (*MutexWithLock).Lock
